@@ -623,6 +623,7 @@ def selftest(rep):
     eng = symex.Engine()
     symex.ENGINE = eng
     it = symex.Interp(eng)
+    it.native_keys_ok = True  # concrete citation objects only
     texts = [
         "Foo v. Bar, 1 U.S. 1 (1999). Id. at 3. Smith v. Jones, 2 U.S. 5. Id. at 200. Bar, supra, at 4. 1 U.S., at 7. See 2 U.S., at 9; Jones at 6.",
         "Foo v. Bar, 1 U.S. 1. Foo v. Bar, 1 U. S. 1. 3 Minn. L. Rev. 5. Id. 42 U.S.C. § 1983. Id. § 5 foo.",
@@ -663,6 +664,18 @@ def run_property(rep, pid):
     params = {"L": L, "optional_parties": not quick, "ref_fields": not quick, "history": pid == "C06"}
     agg = common.explore_split("vf.harness.c06", params, depth=3 if quick else 4, timeout=6 * 3600)
     rep.merge_explore("resolve", agg)
+    if quick and pid in ("C07", "C08"):
+        # slices of the next length: 4 citations over {full case, one reference kind} - repeated references to
+        # colliding cases need two full citations and two references
+        for ks in (["full_case", "short"], ["full_case", "supra"]):
+            rep.bounds.append(f"plus the slice of {L + 1}-citation lists over {ks} (plain numeric pages, no edition guess)")
+            aggx = common.explore_split("vf.harness.c06", dict(params, L=L + 1, kinds=ks, prefixes=pid == "C08", edition_guess=False, comma_pages=False), depth=4, timeout=3600)
+            rep.merge_explore("resolve_slice_" + ks[1], aggx)
+            for k, v in aggx["verdicts"].items():
+                agg["verdicts"][k] = agg["verdicts"].get(k, 0) + v
+            agg["findings"] = agg["findings"] + aggx["findings"]
+            agg["paths"] += aggx["paths"]
+            agg["errors"] = agg["errors"] + aggx["errors"]
     pref = CLAUSES[pid]
     n_ob = sum(v for k, v in agg["verdicts"].items() if any(k.startswith(p) for p in pref))
     n_ok = sum(v for k, v in agg["verdicts"].items() if any(k.startswith(p) for p in pref) and k.endswith(":valid"))
